@@ -230,6 +230,29 @@ def fraction_arithmetic(ctx, r, n, dens):
                 ctx.violation("Fraction-comparison-raised:%s:%s" % (nm, type(e).__name__), dict(case, op=nm, error=str(e)[:120]), replay=dict(case, op=nm))
 
 
+        # ... and with the *same amount* written another way (a float that is a short decimal, an int, another Fraction):
+        # equal amounts are where a comparison that reads one side differently turns wrong
+        for which, x, ex in (("a", a, ea), ("b", b, eb)):
+            if not isinstance(x, Fraction):
+                continue
+            twins = [("Fraction of the same amount", Fraction(int(ex.numerator) * 3, int(ex.denominator) * 3))]
+            if (ex * 1000).denominator == 1:
+                twins.append(("float of the same amount", float(ex)))
+            if ex.denominator == 1:
+                twins.append(("int of the same amount", int(ex)))
+            for tag, y in twins:
+                for nm, op in (("<", operator.lt), ("<=", operator.le), (">", operator.gt), (">=", operator.ge), ("==", operator.eq), ("!=", operator.ne)):
+                    for order, l, rr in (("Fraction first", x, y), ("Fraction second", y, x)):
+                        ctx.ev()
+                        ctx.nt(("frac-equal-amount", tag, nm, order))
+                        try:
+                            got = op(l, rr)
+                            if bool(got) != op(ex, ex):
+                                ctx.violation("Fraction-comparison-differs-from-exact:%s:%s" % (nm, tag), dict(case, op=nm, order=order, fraction=repr(x), other=repr(y), got=bool(got)), replay=dict(case, op=nm))
+                        except Exception as e:
+                            ctx.violation("Fraction-comparison-raised:%s:%s" % (nm, type(e).__name__), dict(case, op=nm, other=repr(y), error=str(e)[:120]), replay=dict(case, op=nm))
+
+
 # ------------------------------------------------------------------------------------------ C
 def create_from_float(ctx, r, n):
     from barril.basic.fraction import FractionValue
